@@ -437,6 +437,60 @@ def direct_ev2_decode(a):
         given[-1], int.from_bytes(d, "big").bit_length(), last)
 
 
+# ------------------------------------------------------------------ pinned vectors (corpus/C17.json)
+
+def impl_golden(a):
+    scheme, cfg, e = a[0], a[1], a[2]
+    if scheme == "xmr":
+        return impl_xmr_encode([cfg[0], cfg[1], e])
+    if scheme == "algo":
+        return impl_algo_encode([e])
+    if scheme == "ev1":
+        return impl_ev1_encode([e])
+    if scheme == "ev2":
+        return impl_ev2_encode([cfg[0], cfg[1], e])
+    raise KeyError(scheme)
+
+
+def model_golden(m, a):
+    scheme, cfg, e = a[0], a[1], a[2]
+    if scheme == "xmr":
+        return m.call("xmr_encode", cfg[0], cfg[1], e)
+    if scheme == "algo":
+        return m.call("algo_encode", e)
+    if scheme == "ev1":
+        return m.call("ev1_encode", e)
+    return m.call("ev2_encode", 1, 1, cfg[0], cfg[1], e)
+
+
+def direct_golden(a):
+    """Encodings pinned from the unchanged tree (they include the upstream test vectors' schemes and languages):
+    a changed word list, prefix length, HMAC key, type prefix or hash shows up here even when the change is
+    self-consistent."""
+    try:
+        got = impl_golden(a)
+    except Exception as ex:  # noqa
+        return "pinned %s vector: encoder raised %s" % (a[0], type(ex).__name__)
+    return None if list(got) == list(a[3]) else "pinned %s vector %s: encodes to %r, pinned %r" % (
+        a[0], a[2].hex()[:16], " ".join(got)[:60], " ".join(a[3])[:60])
+
+
+def _all_lists():
+    return [("xmr_" + l.name.lower(), ws) for l, (_, ws) in zip(XL, XMR)] + [("ev1_english", EV1[1])] + \
+           [("b39_" + l.name.lower(), ws) for l, (_, ws) in zip(B39L, B39)]
+
+
+def direct_wordlist_digest(a):
+    """The word lists are the pinned ones (SHA-256 of the newline-joined words): a reordering or replacement that
+    keeps the lists duplicate-free changes every index silently and would otherwise go unnoticed."""
+    name, pinned = a
+    for nm, ws in _all_lists():
+        if nm == name:
+            h = hashlib.sha256("\n".join(ws).encode("utf-8")).hexdigest()
+            return None if h == pinned else "word list %s changed: sha256 %s, pinned %s" % (name, h[:16], pinned[:16])
+    return "unknown word list %s" % name
+
+
 _M = [None]    # the model driver of the current run (for the 'either' checks)
 
 
@@ -455,6 +509,8 @@ def _either(model_names, impl, a, margs, margs_list=None):
 
 
 FUNCS = {
+    "wordlist_digest": Func(direct=direct_wordlist_digest),
+    "golden_encode": Func(model=model_golden, impl=impl_golden, direct=direct_golden),
     "mnem_crc32": Func(model=lambda m, a: m.call("mnem_crc32", a[0]), impl=lambda a: Crc32.QuickIntDigest(a[0])),
     "mnem_utf8": Func(model=lambda m, a: m.call("mnem_utf8", a[0]), impl=lambda a: AlgoUtils.Encode(a[0])),
     "chunk_encode": Func(model=lambda m, a: m.call("chunk_encode", a[0], a[1], a[2]), impl=impl_chunk_encode,
